@@ -1106,6 +1106,44 @@ pub async fn run_c14(w: &mut World, m: &mut Mon, r: &mut R, t: &Twin) {
             if !before.ok() && before.custom_code() == Some(err::HEALTHY_ACCOUNT) && after.ok() {
                 m.r.violate("C14", "C14/matrix/reduce-only-collateral-not-counted-for-liquidation", "account healthy before the bank became reduce-only is now liquidatable".into());
             }
+            // ... and the price of the reduce-only collateral goes stale: the account (healthy with
+            // that collateral at full value) cannot be assessed any more - counting the deposit as
+            // nothing "because the price is unusable" would make it liquidatable / bankrupt
+            let saved_px = crate::scen::save_price(w, t.a0);
+            let aged = match w.banks[t.a0].oracle.clone() {
+                crate::world::OracleD::Pyth(k) => {
+                    let mut p = w.pyth[&k];
+                    p.publish_time = w.chain.now() - 100_000;
+                    w.set_pyth(&k, p);
+                    true
+                }
+                crate::world::OracleD::Swb(k) => {
+                    let mut p = w.swb[&k];
+                    p.last_update = w.chain.now() - 100_000;
+                    w.set_swb(&k, p);
+                    true
+                }
+                _ => false,
+            };
+            if aged && !before.ok() && before.custom_code() == Some(err::HEALTHY_ACCOUNT) {
+                m.r.eval();
+                m.r.count("C14.reduce_only_stale_price_cells");
+                let lq_ix = w.ix_liquidate(t.liquidator0, t.acct0, t.a0, t.b0, lk.pubkey(), 1000);
+                let o1 = w.probe(m, &[lq_ix], &[&lk]).await;
+                let with_init = !w.shadow.contains_key(&ix::liq_record_key(&w.accts[t.acct0].key));
+                let tas_l = w.users[w.accts[t.liquidator0].user].tas.clone();
+                let rixs = crate::scen::receivership_ixs(w, t.acct0, &lk, None, None, with_init, &tas_l);
+                let o2 = w.probe(m, &rixs, &[&lk]).await;
+                let bi = w.ix_bankruptcy(t.acct0, t.b0, admin.pubkey());
+                let o3 = w.probe(m, &[bi], &[&admin]).await;
+                for (what, o) in [("liquidate", &o1), ("start_liquidation", &o2), ("handle_bankruptcy", &o3)] {
+                    if o.ok() {
+                        m.r.violate("C14", &format!("C14/matrix/{}-accepted-with-reduce-only-collateral-left-out-because-its-price-is-stale", what), "account healthy with its reduce-only collateral at full value; the collateral's price is stale".into());
+                    }
+                }
+            }
+            crate::scen::restore_price(w, t.a0, saved_px);
+            w.refresh_oracles();
             let i = set_state(w.banks[t.a0].key, BankOperationalState::Operational);
             let _ = w.exec(m, &[i], &[&admin]).await;
         }
